@@ -116,6 +116,16 @@ def run(ctx, info):
         r2 = rng.random()
         t = gen.doc_text(rng, rng.choice(gen.ROOTS7), corners=0.35, risky=True) if r2 < 0.6 else gen.noise_text(rng) if r2 < 0.9 else gen.noise_line(rng) + '\n'
         cases.append((t, root))
+    cases += [(t, r) for _, t, r in gen.pairwise_docs()]   # every construct inside every context
+    # every keyword with attribute syntax after it (classes, pairs, both, empty braces), at the start of a document
+    speechy = set(gen.SPEECH_CONTAINERS + gen.SPEECH_GROUPS + gen.SPEECH_BLOCKS + ['FROM'])
+    for k in gen.ALL_KEYWORDS:
+        for tail in ['.a{b c} d', '{x y}', '.k', '{}', '.k{refersTo #r|class z} 1 - h', '{class a|style b}']:
+            body = k + tail + '\n  x\n    y\n'
+            if k in speechy:
+                cases.append(('DEBATESECTION\n  ' + body.replace('\n', '\n  ') if k != 'DEBATESECTION' else body, 'debate'))
+            else:
+                cases.append((body, rng.choice(gen.ROOTS6)))
     nb = 0
     known = {}
     for t, root in cases:
@@ -139,8 +149,8 @@ def run(ctx, info):
         bad = []
         for (t, r), m in zip(pres, ms):
             rl = {k: v for k, v in real.to_dict(t, r).items() if k != 'tree'}
-            if json.dumps(rl, sort_keys=True) != json.dumps(m, sort_keys=True):
-                bad.append({'pre': t, 'root': r, 'real': json.dumps(rl)[:600], 'model': json.dumps(m)[:600]})
+            if _jd(rl) != _jd(m):
+                bad.append({'pre': t, 'root': r, 'real': _jd(rl)[:600], 'model': _jd(m)[:600]})
         ctx.oblige('tie todict: real tree.to_dict() (as JSON) = model toDict, document roots and fragment rules', 'tie', not bad,
                    f'{len(bad)} disagreements; first: {json.dumps(bad[0])[:800]}' if bad else f'{len(cases)} cases agree')
         for b in bad[:3]:
@@ -149,6 +159,15 @@ def run(ctx, info):
            'rule': 'generated documents (corner constructs), noise and single noise lines parsed with the seven document roots and 19 fragment rules; non-trivial = distinct text longer than 10 characters',
            'samples': [{'text': cases[0][0][:300], 'root': cases[0][1]}]}
     return {'coverage': cov, 'failures': failures}
+
+
+def _jd(x):
+    """JSON text of a value; a value that json cannot serialise (itself a violation of the contract, reported by the oracle)
+    is rendered with repr so that the tie reports a disagreement instead of crashing"""
+    try:
+        return json.dumps(x, sort_keys=True)
+    except (TypeError, ValueError):
+        return 'NOT-JSON-SERIALISABLE ' + repr(x)
 
 
 def witness_fails(ctx, finding):
